@@ -436,100 +436,160 @@ func main() {
 			scenarios[i].normalise()
 		}
 
-		// run in parallel: the cases are independent and mostly sleep
-		results := make([]Result, len(scenarios))
-		sem := make(chan struct{}, 12)
-		var wg sync.WaitGroup
-		for i := range scenarios {
-			wg.Add(1)
-			go func(i int) {
-				defer wg.Done()
-				sem <- struct{}{}
-				defer func() { <-sem }()
-				results[i] = runScenario(&scenarios[i], base)
-			}(i)
+		// First pass: all scenarios in parallel (they mostly sleep). The machine may be so loaded that a command is
+		// not even started within its timeout, or that a timer is hundreds of milliseconds late: a scenario whose
+		// processes had not finished their set-up when the first signal was sent, or whose timing was off, is run
+		// again (up to twice) with little else going on, and the LAST attempt is the one that is judged for timing.
+		// Survivors, missing SIGKILLs and wrong errors count on EVERY attempt.
+		const boundMs, slackMs, modelLatMs = 1030, 500, 400
+		noisy := func(s *Scenario, r Result) bool {
+			T := int64(s.TimeoutMs)
+			if r.SetupLate || r.MainPid == 0 {
+				return true
+			}
+			if r.TimedOut {
+				return r.ElapsedMs > T+boundMs+slackMs || r.TTermMs > T+modelLatMs || (r.Gap1Ms >= 30 && r.Gap1Ms > 30+modelLatMs) || (r.Gap2Ms >= 1000 && r.Gap2Ms > 1000+modelLatMs)
+			}
+			return r.ElapsedMs > T+slackMs
 		}
-		wg.Wait()
+		attempts := make([][]Result, len(scenarios))
+		pass := func(idx []int, par int) {
+			sem := make(chan struct{}, par)
+			var wg sync.WaitGroup
+			var mu sync.Mutex
+			for _, i := range idx {
+				wg.Add(1)
+				go func(i int) {
+					defer wg.Done()
+					sem <- struct{}{}
+					defer func() { <-sem }()
+					r := runScenario(&scenarios[i], base)
+					mu.Lock()
+					attempts[i] = append(attempts[i], r)
+					mu.Unlock()
+				}(i)
+			}
+			wg.Wait()
+		}
+		all := make([]int, len(scenarios))
+		for i := range all {
+			all[i] = i
+		}
+		pass(all, 8)
+		reruns := 0
+		for round := 0; round < 2; round++ {
+			var again []int
+			for i := range scenarios {
+				if noisy(&scenarios[i], attempts[i][len(attempts[i])-1]) {
+					again = append(again, i)
+				}
+			}
+			if len(again) == 0 {
+				break
+			}
+			reruns += len(again)
+			pass(again, 3)
+		}
+		if reruns > 0 {
+			c.Note("%d re-runs of scenarios whose first attempt was disturbed by machine load (set-up of the process tree unfinished at the first signal, or timers more than %d ms late)", reruns, modelLatMs)
+		}
 
+		if os.Getenv("C30_DEBUG") != "" {
+			for i := range scenarios {
+				for _, r := range attempts[i] {
+					fmt.Fprintf(os.Stderr, "%-40s T=%-5d %+v\n", scenarios[i].Name, scenarios[i].TimeoutMs, r)
+				}
+			}
+		}
 		escapedSurvivors, quirk := 0, 0
 		for i := range scenarios {
-			s, r := &scenarios[i], results[i]
-			js := map[string]any{"name": s.Name, "timeout_ms": s.TimeoutMs, "main_wait": s.MainWait, "procs": s.Procs, "observed": r}
+			s := &scenarios[i]
 			T := int64(s.TimeoutMs)
 			nontrivial := len(s.Procs) > 1 || s.Procs[0].Ign || (s.Procs[0].LifeMs >= s.TimeoutMs-20 && s.Procs[0].LifeMs <= s.TimeoutMs+20)
+			var r Result
+			var js map[string]any
+			for k, att := range attempts[i] {
+				r = att
+				last := k == len(attempts[i])-1
+				js = map[string]any{"name": s.Name, "timeout_ms": s.TimeoutMs, "main_wait": s.MainWait, "procs": s.Procs, "observed": r, "attempt": k + 1}
 
-			// ---- the property oracle: nothing below uses the model ----
-			const boundMs, slackMs = 1030, 500
-			c.Oracle()
-			if r.TimedOut && r.ElapsedMs > T+boundMs+slackMs {
-				c.Fail("timeout-reported-late", fmt.Sprintf("timeout %d ms: returned after %d ms, more than %d+%d ms after the deadline", T, r.ElapsedMs, boundMs, slackMs), js)
-			}
-			c.Oracle()
-			if !r.TimedOut && r.ElapsedMs > T+slackMs {
-				c.Fail("exceeded-timeout-not-reported-failed", fmt.Sprintf("timeout %d ms: returned after %d ms with error %q instead of a timeout", T, r.ElapsedMs, r.Err), js)
-			}
-			c.Oracle()
-			if r.TimedOut && r.ElapsedMs < T {
-				c.Fail("timeout-reported-before-deadline", fmt.Sprintf("timeout %d ms: reported timed out after %d ms", T, r.ElapsedMs), js)
-			}
-			c.Oracle()
-			if r.TimedOut {
-				killed := false
-				for _, sg := range r.Sigs {
-					killed = killed || sg == 9
+				// ---- the property oracle: nothing below uses the model ----
+				if last {
+					c.Oracle()
+					if r.TimedOut && r.ElapsedMs > T+boundMs+slackMs {
+						c.Fail("timeout-reported-late", fmt.Sprintf("timeout %d ms: returned after %d ms, more than %d+%d ms after the deadline (attempt %d)", T, r.ElapsedMs, boundMs, slackMs, k+1), js)
+					}
+					c.Oracle()
+					if !r.TimedOut && r.ElapsedMs > T+slackMs {
+						c.Fail("exceeded-timeout-not-reported-failed", fmt.Sprintf("timeout %d ms: returned after %d ms with error %q instead of a timeout (attempt %d)", T, r.ElapsedMs, r.Err, k+1), js)
+					}
 				}
-				if !killed && r.MainPid != 0 {
-					c.Fail("no-sigkill-to-group-before-return", fmt.Sprintf("timeout %d ms: the executor returned without having sent SIGKILL to -%d (signals sent: %v)", T, r.MainPid, r.Sigs), js)
+				c.Oracle()
+				if r.TimedOut && r.ElapsedMs < T {
+					c.Fail("timeout-reported-before-deadline", fmt.Sprintf("timeout %d ms: reported timed out after %d ms", T, r.ElapsedMs), js)
 				}
+				c.Oracle()
+				if r.TimedOut && r.MainPid != 0 {
+					killed := false
+					for _, sg := range r.Sigs {
+						killed = killed || sg == 9
+					}
+					if !killed {
+						c.Fail("no-sigkill-to-group-before-return", fmt.Sprintf("timeout %d ms: the executor returned without having sent SIGKILL to -%d (signals sent: %v)", T, r.MainPid, r.Sigs), js)
+					}
+				}
+				c.Oracle()
+				if len(r.InSess) > 0 {
+					f := r.InSess[0]
+					what := fmt.Sprintf("timeout %d ms, returned %q after %d ms: pid %d (%s, pgid %d, state %s) still runs %d ms after the start", T, r.Err, r.ElapsedMs, f.Pid, f.Cmd, f.Pgid, f.State, r.ScanMs)
+					allDetached := true
+					for _, f := range r.InSess {
+						allDetached = allDetached && f.Detached
+					}
+					switch {
+					case r.TimedOut:
+						c.Fail("group-member-survives-timeout", what, js)
+					case allDetached:
+						c.Fail("detached-child-survives-normal-exit", what, js)
+					default:
+						c.Fail("child-survives-normal-exit", what, js)
+					}
+				}
+				escapedSurvivors += len(r.OutSess)
 			}
-			c.Oracle()
-			if len(r.InSess) > 0 {
-				f := r.InSess[0]
-				what := fmt.Sprintf("timeout %d ms, returned %q after %d ms: pid %d (%s, pgid %d, state %s) still runs %d ms after the start", T, r.Err, r.ElapsedMs, f.Pid, f.Cmd, f.Pgid, f.State, r.ScanMs)
-				allDetached := true
-				for _, f := range r.InSess {
-					allDetached = allDetached && f.Detached
-				}
-				switch {
-				case r.TimedOut:
-					c.Fail("group-member-survives-timeout", what, js)
-				case allDetached:
-					c.Fail("detached-child-survives-normal-exit", what, js)
-				default:
-					c.Fail("child-survives-normal-exit", what, js)
-				}
-			}
-			escapedSurvivors += len(r.OutSess)
 			if r.TimedOut && r.Gap1Ms < 30 && r.Gap2Ms >= 1000 {
 				quirk++
 			}
 
-			// ---- the case for the model ----
+			// ---- the case for the model: the last attempt ----
 			c.Hist("timeout_ms", strconv.Itoa(s.TimeoutMs))
 			c.HistN("processes", len(s.Procs))
+			c.HistN("attempts", len(attempts[i]))
 			switch {
 			case r.Err != "" && !r.TimedOut:
 				c.Hist("outcome", "other-error")
 				c.Note("scenario %s/%d returned an unexpected error %q; no model case", s.Name, s.TimeoutMs, r.Err)
 				c.Eval(js, s.key(), nontrivial)
 				continue
-			case r.TimedOut && r.Gap1Ms < 30:
+			case r.TimedOut && r.MainPid != 0 && r.Gap1Ms < 30:
 				c.Hist("outcome", "timeout: exited on SIGTERM, then waited out the SIGKILL wait")
-			case r.TimedOut && r.Gap2Ms >= 1000:
+			case r.TimedOut && r.MainPid != 0 && r.Gap2Ms >= 1000:
 				c.Hist("outcome", "timeout: both waits expired")
-			case r.TimedOut:
+			case r.TimedOut && r.MainPid != 0:
 				c.Hist("outcome", "timeout: exited on SIGKILL")
+			case r.TimedOut:
+				c.Hist("outcome", "timeout: command not up before the deadline")
 			default:
 				c.Hist("outcome", "finished before the deadline")
 			}
-			if r.SetupLate || r.MainPid == 0 {
-				// a process had not finished its set-up (trap, redirection, setsid) when the first signal was sent:
-				// the tree did not have the described shape yet; the oracle above still applied
-				c.Hist("setup", "late")
+			if noisy(s, r) {
+				// still disturbed after the re-runs: the tree did not have the described shape at the first signal, or
+				// a timer was later than the model's tolerance; the oracle above still applied
+				c.Hist("model case", "none: set-up late or timers too late")
 				c.Eval(js, s.key(), nontrivial)
 				continue
 			}
-			c.Hist("setup", "complete")
+			c.Hist("model case", "yes")
 			sigs := make([]uint64, len(r.Sigs))
 			for k, sg := range r.Sigs {
 				sigs[k] = uint64(sg)
